@@ -480,10 +480,9 @@ impl PartialEq for JsStr<'_> {
 impl PartialEq<str> for JsStr<'_> {
     #[inline]
     fn eq(&self, other: &str) -> bool {
-        match self.variant() {
-            JsStrVariant::Latin1(v) => v == other.as_bytes(),
-            JsStrVariant::Utf16(v) => other.encode_utf16().zip(v).all(|(a, b)| a == *b),
-        }
+        // Compare by UTF-16 code units: Latin-1 bytes >= 0x80 are not their UTF-8 encoding,
+        // and both sequences must have the same length.
+        self.iter().eq(other.encode_utf16())
     }
 }
 
